@@ -31,8 +31,14 @@ STD3_SYM = {frozenset([0]): "0", frozenset([1]): "1", frozenset([2]): "2", froze
             frozenset([0, 2]): "b", frozenset([1, 2]): "c", frozenset([0, 1, 2]): "n",
             frozenset([3]): "-", frozenset([0, 1, 2, 3]): "?"}
 STD2 = {"fund": ["0", "1"], "gap": "-", "missing": "?", "amb": [{"sym": "a", "mem": ["0", "1"]}]}
+# names in braces are ANONYMOUS ambiguity codes (state symbol None, as NEXUS "{01}" produces); the name only
+# exists in the driver and in the log
 STD4 = {"fund": ["p", "q", "r", "s"], "gap": "-", "missing": "?",
-        "amb": [{"sym": "x", "mem": ["p", "q"]}, {"sym": "y", "mem": ["q", "r", "s"]}, {"sym": "z", "mem": ["p", "s"]}]}
+        "amb": [{"sym": "x", "mem": ["p", "q"]}, {"sym": "y", "mem": ["q", "r", "s"]}, {"sym": "z", "mem": ["p", "s"]},
+                {"sym": "{pq}", "mem": ["p", "q"]}, {"sym": "{rs}", "mem": ["r", "s"]}, {"sym": "{qs}", "mem": ["q", "s"]}]}
+STD3A = {"fund": ["0", "1", "2"], "gap": "-", "missing": "?",
+         "amb": [{"sym": "a", "mem": ["0", "1"]}, {"sym": "{01}", "mem": ["0", "1"]}, {"sym": "{12}", "mem": ["1", "2"]},
+                 {"sym": "{02}", "mem": ["0", "2"]}]}
 # IUPAC code of a set of bases (used only to WRITE cells; their meaning is judged by Trace_Fitch.DnaAlpha)
 DNA_CODE = {"A": "A", "C": "C", "G": "G", "T": "T", "AG": "R", "CT": "Y", "AC": "M", "AT": "W", "CG": "S", "GT": "K",
             "ACG": "V", "ACT": "H", "AGT": "D", "CGT": "B", "ACGT": "N"}
@@ -49,23 +55,29 @@ def dna_embed(cell, sigma):
 
 
 def make_matrix(dendropy, spec, ns, taxa):
-    """spec: {"type", "rows": [[symbol,...] per taxon code-1], + alphabet definition for standard}"""
-    d = {}
-    for k, t in enumerate(taxa):
-        d[t.label] = list(spec["rows"][k])
+    """spec: {"type", "rows": [[symbol,...] per taxon code-1], + alphabet definition for standard};
+    returns (matrix, {id(anonymous state): its name in the log})"""
     if spec["type"] == "dna":
-        return dendropy.DnaCharacterMatrix.from_dict(d, taxon_namespace=ns)
+        d = dict((t.label, list(spec["rows"][k])) for k, t in enumerate(taxa))
+        return dendropy.DnaCharacterMatrix.from_dict(d, taxon_namespace=ns), {}
     sa = dendropy.new_standard_state_alphabet("".join(spec["fund"]))
+    anon = {}
     for a in spec["amb"]:
-        sa.new_ambiguous_state(a["sym"], member_state_symbols="".join(a["mem"]))
-    return dendropy.StandardCharacterMatrix.from_dict(d, taxon_namespace=ns, default_state_alphabet=sa)
+        if a["sym"].startswith("{"):
+            anon[a["sym"]] = sa.new_ambiguous_state(None, member_state_symbols="".join(a["mem"]))
+        else:
+            sa.new_ambiguous_state(a["sym"], member_state_symbols="".join(a["mem"]))
+    d = dict((t.label, [anon.get(x, x) for x in spec["rows"][k]]) for k, t in enumerate(taxa))
+    m = dendropy.StandardCharacterMatrix.from_dict(d, taxon_namespace=ns, default_state_alphabet=sa)
+    return m, dict((id(st), name) for name, st in anon.items())
 
 
-def project_matrix(m, spec, taxa):
+def project_matrix(m, spec, taxa, anon_names=None):
     """the matrix the library holds, as symbols per taxon (accession order) and the alphabet that was defined"""
+    anon_names = anon_names or {}
     rows = []
     for t in taxa:
-        rows.append([(c.symbol if isinstance(c.symbol, str) else "<%r>" % (c.symbol,)) for c in m[t]])
+        rows.append([(c.symbol if isinstance(c.symbol, str) else anon_names.get(id(c), "<%r>" % (c.symbol,))) for c in m[t]])
     if spec["type"] == "dna":
         return {"type": "dna", "fund": [], "gap": "-", "missing": "?", "amb": [], "rows": rows}
     return {"type": "standard", "fund": list(spec["fund"]), "gap": spec["gap"], "missing": spec["missing"],
@@ -150,8 +162,8 @@ class World(object):
 
     def matrix(self, key, spec):
         if key not in self.mats:
-            m = make_matrix(self.d, spec, self.ns, self.taxa)
-            self.mats[key] = (m, project_matrix(m, spec, self.taxa))
+            m, anon = make_matrix(self.d, spec, self.ns, self.taxa)
+            self.mats[key] = (m, project_matrix(m, spec, self.taxa, anon))
         return self.mats[key]
 
     def score(self, key, spec, api, gm, w, bylist):
@@ -214,8 +226,8 @@ def run_table(case):
         for i in range(nl):
             rows[perm[i]] = spec0["leafrows"][i]       # row of the taxon sitting on leaf i
         spec = dict(spec0, rows=rows)
-        m = make_matrix(dendropy, spec, ns, taxa)
-        pm = project_matrix(m, spec, taxa)
+        m, anon = make_matrix(dendropy, spec, ns, taxa)
+        pm = project_matrix(m, spec, taxa, anon)
         calls = []
         g = None
         k = rng.randrange(4)
@@ -262,7 +274,7 @@ def run_path(case):
             spec["rows"] = spec["leafrows"]           # taxa 1..L left to right, as in the model
             key = repr(spec["rows"])
             api = APIS[(k + case["seed"]) % len(APIS)]
-            ev = w.score(key, spec, api, gm, list(wt), True)
+            ev = w.score(key, spec, api, gm, list(wt), (k + case["seed"]) % 3 != 0)
         elif name == "Reroot":
             x = args[0]
             old_root = w.tree.seed_node
@@ -295,7 +307,7 @@ def random_matrix(rng, nl, nchar, kind, smax):
     if kind == "dna":
         spec = {"type": "dna"}
     else:
-        spec = dict(rng.choice([STD2, STD3, STD4]) if smax >= 5 else (STD2 if smax <= 3 else rng.choice([STD2, STD3])),
+        spec = dict(rng.choice([STD2, STD3, STD3A, STD4]) if smax >= 5 else (STD2 if smax <= 3 else rng.choice([STD2, STD3, STD3A])),
                     type="standard")
     cols = []
     for j in range(nchar):
@@ -305,6 +317,17 @@ def random_matrix(rng, nl, nchar, kind, smax):
             fund = "ACGT" if spec["type"] == "dna" else spec["fund"]
             pool = [s for s in pool if s in fund] or pool
         cols.append([rng.choice(pool) for _ in range(nl)])
+        anon = [x for x in pool if x.startswith("{")]
+        if len(anon) > 1 and len(cols) < nchar and rng.random() < 0.7:
+            # the same column again, with one anonymous ambiguity code replaced by another one: the two
+            # columns show the same symbols wherever a state has a symbol
+            c1, c2 = rng.sample(anon, 2)
+            col = list(cols[-1])
+            for t in rng.sample(range(nl), 2):
+                col[t] = c1
+            cols[-1] = col
+            cols.append([c2 if x == c1 else (c1 if x == c2 else x) for x in col])
+    cols = cols[:nchar]
     spec["rows"] = [[cols[j][t] for j in range(nchar)] for t in range(nl)]
     return spec
 
@@ -333,16 +356,22 @@ def run_random(case):
         alt["rows"][t][j] = rng.choice(col)
         mats.append(alt)
     evs = []
+    last = None
     for _ in range(case["nops"]):
         r = rng.random()
         internal = [nd for nd in w.keep_nodes() if nd._child_nodes]
         if r < 0.62 or not evs:
             mi = rng.randrange(len(mats))
+            gm = rng.random() < 0.5
+            again = last is not None and rng.random() < 0.3      # the same data again, other weights
+            if again:
+                mi, gm = last
             spec = mats[mi]
             nchar = len(spec["rows"][0])
             wt = [] if rng.random() < 0.5 else [rng.randint(0, 3) for _ in range(nchar)]
             api = "fitch_down_pass" if attr != "state_sets" else rng.choice(APIS)
-            evs.append(w.score(mi, spec, api, rng.random() < 0.5, wt, rng.random() < 0.75))
+            evs.append(w.score(mi, spec, api, gm, wt, rng.random() < (0.4 if again else 0.75)))
+            last = (mi, gm)
         elif r < 0.80:
             cands = [nd for nd in w.keep_nodes() if nd._parent_node is not None and nd._parent_node._parent_node is not None]
             if cands:
@@ -381,8 +410,8 @@ def run_random_table(case):
             nested[3].extend(c[3])
     ns, taxa = build.make_namespace(dendropy, nl)
     spec = random_matrix(rng, nl, rng.randint(1, 4), "dna" if (nl <= 7 and rng.random() < 0.5) else "standard", SMAX[nl - 1])
-    m = make_matrix(dendropy, spec, ns, taxa)
-    pm = project_matrix(m, spec, taxa)
+    m, anon = make_matrix(dendropy, spec, ns, taxa)
+    pm = project_matrix(m, spec, taxa, anon)
     nchar = len(spec["rows"][0])
     calls, g = [], None
     for k, gm in enumerate((True, False, rng.random() < 0.5)):
